@@ -10,6 +10,7 @@ from __future__ import annotations
 import ast
 
 from ..astutil import ancestors, calls_in, dotted, enclosing_stmt, handler_catches, handler_reraises, is_catch_all, is_within, kwarg, src, walk_local
+from ..cfg import cfg_of
 from ..loader import AnalysisError
 from .backends import ENTRY, INTERFACE, backend_classes, class_callgraph, decorators_of, is_retried, own_methods, transport_calls
 from .common import func_label, loc
@@ -204,9 +205,15 @@ def r2_rewind(ctx, rule='C12.R2', only=None, floor=6):
             # any other fallible step after the first consumption (publishing the temporary,
             # closing the response ...) also triggers a retry and must rewind as well
             if retried and cons:
-                first = min(c.lineno for c in cons)
+                fcfg = cfg_of(f.node)
+                cons_done = [x for c in cons for x in (fcfg.nodes_of(enclosing_stmt(c), 'ok') or fcfg.nodes_of(enclosing_stmt(c), ('stmt', 'loop', 'with_enter')))]
+                cons_stmts = {id(enclosing_stmt(c)) for c in cons}
                 for c2 in calls_in(f.node):
-                    if c2.lineno <= first or c2 in cons:
+                    if c2 in cons or id(enclosing_stmt(c2)) in cons_stmts or any(is_within(c2, enclosing_stmt(c)) for c in cons):
+                        continue
+                    # "after the consumption" is decided on the control-flow graph (line numbers say nothing once helpers were expanded)
+                    tgt = fcfg.nodes_of(enclosing_stmt(c2), ('stmt', 'test', 'loop', 'with_enter'))
+                    if not tgt or not any(fcfg.path(x, tgt, kinds=('normal',)) is not None for x in cons_done):
                         continue
                     if any(isinstance(a, ast.ExceptHandler) for a in ancestors(c2)):
                         continue
